@@ -3,6 +3,7 @@
    Model: Schema/Sem.v (engines), Schema/Conform.v (specification), Schema/Types.v (wf). *)
 Require Import IP.Base.Bytes IP.DM.Value IP.Schema.Types IP.Schema.View IP.Schema.Conform IP.Schema.Sem
   IP.Proofs.SchemaBuild IP.Proofs.SchemaRepr IP.Proofs.SchemaRefute IP.Proofs.SchemaTop IP.Proofs.SchemaCopy IP.Schema.Perm IP.Proofs.SchemaPerm.
+Require Import IP.Codec.Cbor IP.Proofs.CborEnc IP.Proofs.CborDec IP.Proofs.SchemaCbor.
 
 (* every strategy: the representation view is the canonical view of the specified representation, its
    data is the specified representation, and the type-level view is the specified one.
@@ -90,3 +91,37 @@ Theorem C08_refuted_two_routes :
   rbuild Bind pinned tNL (repr_spec tNL (VList [MVal (VUnion 0 (VInt 1)); MNull])) = BPanic.
 Proof. exact refuted_two_routes. Qed.
 Print Assumptions C08_refuted_two_routes.
+
+(* ---- the bytes clause over the concrete DAG-CBOR codec of Codec/Cbor.v (the model the C02/C03
+   correspondence ties to codec/dagcbor); proofs in Proofs/SchemaCbor.v ---- *)
+(* encode the representation of a typed value with the registered encoder, decode with the registered
+   decoder, feed the representation builder: the value comes back up to the entry order of typed maps and
+   Any content, is a value of the type, and its representation encodes to the same bytes — for every
+   wf type, every value of it, both engines, every decoder configuration that allows links, whenever the
+   representation is within that configuration's limits *)
+Theorem C08_bytes_dagcbor : forall e o t v,
+  (e = Bind \/ e = Gen) -> wf t = true -> has_type t v = true ->
+  d_allow_links o = true -> within_limits o (repr_spec t v) ->
+  exists d' v', decode o (cbor_bytes (repr_spec t v)) = Ok (d', []) /\
+                rbuild e qoff t d' = BOk v' /\ veq v v' /\ has_type t v' = true /\
+                repr e qoff t v' = Some (repr_spec t v') /\
+                cbor_bytes (repr_spec t v') = cbor_bytes (repr_spec t v).
+Proof. exact typed_dagcbor_roundtrip. Qed.
+Print Assumptions C08_bytes_dagcbor.
+
+(* dag-cbor meets the two hypotheses C08_bytes makes of "any codec", on every tree within the limits *)
+Theorem C08_dagcbor_is_such_a_codec : forall o d d', d_allow_links o = true -> within_limits o d ->
+  (exists d1, decode o (cbor_bytes d) = Ok (d1, []) /\ peq d d1) /\
+  (dm_wf d = true -> peq d d' -> cbor_bytes d = cbor_bytes d').
+Proof. intros o d d' Hl Hw. split; [exact (dagcbor_dec_enc o d Hl Hw)|exact (dagcbor_enc_peq d d')]. Qed.
+Print Assumptions C08_dagcbor_is_such_a_codec.
+
+(* the premises are satisfiable: the deep example type and value are within the default limits *)
+Theorem C08_bytes_dagcbor_example :
+  wf tBig = true /\ has_type tBig vBig = true /\ within_limits (dagcbor_dopts true) (repr_spec tBig vBig).
+Proof.
+  split; [vm_compute; reflexivity|]. split; [vm_compute; reflexivity|].
+  unfold within_limits. split; [|split; vm_compute; discriminate].
+  exact within_big.
+Qed.
+Print Assumptions C08_bytes_dagcbor_example.
